@@ -7,6 +7,9 @@ CHECKS = {
  "C01": ("exploration", "E2-programs", "bounded exhaustive input enumeration through the whole pipeline under a panic guard and a process supervisor",
          "All byte strings of length 1-2 (3), all stack-pruned sequences up to length 4 (5) over 48 hostile tokens, every assignment of boundary constants to the operands of 28 multi-operand opcodes, 16 pipeline templates x B x B and every prefix of the smallest shipped contracts go through analyze() and through the staged API in up to 3 configurations; panics are caught in-process, aborts and hangs are attributed to a case by re-running unfinished chunks one case at a time in a child process.",
          "inputs beyond ~40 bytes only through corpus prefixes; scale effects (native stack on 24 KiB contracts) not reached", "3/C01"),
+ "C02": ("model_checking", "E4-schedule", "deviation-bounded exhaustive exploration of hash-iteration-order choices (controlled scheduler over the order-point hooks) on the real pipeline",
+         "The only scheduler in this single-threaded library is hash iteration order. Every place where a hash collection becomes a sequence is a hooked choice point; for ~7 600 programs (evidence sequences, slot-self-referential programs, idiom programs, two shipped contracts) all plans with 0 and 1 deviating choice points (2 for short programs in the thorough tier) are executed and class + layout must equal the canonical run. Runs are deterministic and replayable (plan files).",
+         "hooks must cover every order-sensitive point (DESIGN.md section 7); per-program schedule caps for the shipped contracts are reported", "3/C02"),
  "C03": ("exploration", "E2-programs", "bounded exhaustive program enumeration x configuration grid on the real VM, plus single-deviation schedule exploration for type-checker termination",
          "All control-flow token sequences up to length 6 (7) crossed with a grid of iteration / fork / gas limits are executed by the real VM under a step-budget watchdog and every stored state is checked against the four stated bounds; all stack-safe storage read-mask-write sequences up to length 6 (7) are analysed under the canonical order and under every single deviation at the unification order points to decide termination of the whole pipeline.",
          "limits above 3 not crossed with the program space; halting decided by a poll budget (20 000 polls for <= 30-byte programs) plus the supervisor's wall-clock stall detection", "3/C03"),
@@ -40,6 +43,12 @@ CHECKS = {
  "C13": ("fault_enumeration", "E5-interruption", "exhaustive enumeration of interruption points (every poll index of every listed run) with a counting watchdog",
          "For 33 programs that spend their time in each polled loop x 6 poll intervals, the poll count P of an uninterrupted run is measured and every k in 0..=P is used as the point from which the watchdog answers stop; the result must be a stopped-by-watchdog error and never a layout. Stage-level poll counts are compared with independently measured work.",
          "runs use the canonical iteration order so that poll indices denote execution points; SimpleContract is stratified in the quick tier", "3/C13"),
+ "C14": ("model_checking", "E3-history", "explicit enumeration of judgement-set states evaluated on the real unifier (canonical order + every single order deviation) in lock-step with a reference congruence closure",
+         "All sets of up to 3 (4) judgements over a 3-variable universe and a 27-judgement alphabet (equalities, words, bytes, mappings / arrays incl. self-reference, packed encodings with empty, overlapping, unsorted, out-of-word and self-referential spans) are unified by the real code under a poll budget and every single deviation at the order points; termination, exactly one equality-free expression per variable, honoured equalities, no spurious equality and component unification are checked against a reference closure.",
+         "3 variables instead of ~40; soundness / completeness of component unification only for sets without packed encodings", "3/C14"),
+ "C15": ("model_checking", "E3-history", "explicit enumeration of evidence sets generated from hidden ground truths, evaluated on the real unifier against a reference word lattice",
+         "For 9 word truths and 3 constructors every subset of weakenings (<= 3 on one variable, <= 2 on an equal one; constructors stated twice with split component evidence) must resolve to the join computed on explicit chains and never to a conflict; each set with exactly one plainly contradictory judgement must resolve to a conflict; all under the canonical order and every single deviation at the unification order points.",
+         "only the uncontroversial chains are generated; the join is computed without the tool's merge table", "3/C15"),
  "C16": ("exploration", "E1-flat", "complete enumeration of the property's finite evidence domain (all ordered pairs and triples) on the real merge",
          "The property's own domain (41 pieces of evidence) is finite: all 1 681 ordered pairs and all 68 921 ordered triples are pushed through the real unification::merge and compared after normalisation. This decides the property on its whole stated domain. The non-associative triples of the pinned tree (dynamic bytes / dynamic arrays absorbing mutually conflicting words) are listed one by one as known findings; any other triple is a violation.",
          "normalisation (conflicts collapsed, variables up to the emitted equalities) is the statement's own equivalence; packed encodings are outside the stated domain", "3/C16"),
